@@ -485,11 +485,17 @@ func imageClass(img dirState, opName string, before, after *storeModel) string {
 		s := string(content)
 		return s == fmt.Sprintf("%019d", b) || s == fmt.Sprintf("%019d", a)
 	}
+	// (the listed finding is the in-place rewrite by an operation that changes a counter; a counter
+	// file damaged while the store is merely re-read is something else and gets its own signature)
+	tornBy := "torn-counter-file"
+	if opName == "refresh" {
+		tornBy = "counter-file-damaged-by-reread"
+	}
 	if v, ok := img["senderseqnums"]; ok && !valid(v, before.sender, after.sender) {
-		return "torn-counter-file"
+		return tornBy
 	}
 	if v, ok := img["targetseqnums"]; ok && !valid(v, before.target, after.target) {
-		return "torn-counter-file"
+		return tornBy
 	}
 	hdr := img["header"]
 	if len(hdr) > 0 && hdr[len(hdr)-1] != '\n' {
